@@ -229,8 +229,53 @@ def run_economy(spec):
     return {'nontrivial': True, 'labels': labels}
 
 
+# ---------------------------------------------------------------------------------------------- solver reuse
+@st.composite
+def reuse_case(draw):
+    """A parameter sweep on ONE solver object: solve block A, then parse and solve block B (same variables, shifted
+    constants / another block altogether); the values returned for B must satisfy B."""
+    a = draw(blocks.system(n_sim=(1, 5), q_hi=70, lags=(0, 2), exos=(0, 1), consts=(0, 1), aliases=(0, 1), leaves=(0, 2),
+                           horizon=(1, 4), ic_prob=10, nonlinear=draw(st.booleans()), tols=('1e-6', '1e-8')))
+    mode = draw(st.sampled_from(['sweep', 'sweep', 'other']))
+    if mode == 'sweep':
+        import copy as _copy
+        b = _copy.deepcopy(a)
+        for e in b['eqs']:
+            if e[2] in ('sim', 'leaf') and draw(st.sampled_from([True, True, False])):
+                e[1] = e[1] + ' + ' + draw(st.sampled_from(['1.50', '0.25', '10.0']))
+    else:
+        b = draw(blocks.system(n_sim=(1, 5), q_hi=70, lags=(0, 2), exos=(0, 1), consts=(0, 1), aliases=(0, 1), leaves=(0, 2),
+                               horizon=(1, 4), ic_prob=10, nonlinear=False, tols=('1e-6', '1e-8')))
+    return {'a': a, 'b': b, 'mode': mode, 'reduction': draw(st.booleans())}
+
+
+def run_reuse(spec):
+    from sfc_models.equation_solver import EquationSolver
+    es = EquationSolver(run_equation_reduction=spec['reduction'])
+    for fn, f in blocks.USER_FUNCS.items():
+        es.AddFunction(fn, f)
+    outcomes = []
+    for which in ('a', 'b'):
+        try:
+            es.ParseString(blocks.render(spec[which]))
+            es.SolveEquation()
+            outcomes.append('ok')
+        except Exception as ex:
+            outcomes.append(type(ex).__name__)
+            if type(ex).__name__ not in ('ConvergenceError', 'ValueError'):
+                raise Violation('C02/reuse-unexpected-exception', 'block %s on a reused solver raised %s: %s' %
+                                (which, type(ex).__name__, ex))
+    labels = ['mode:' + spec['mode'], 'outcomes:' + '/'.join(outcomes)]
+    if outcomes[1] == 'ok':
+        b = dict(spec['b'])
+        b['tol_param'] = None
+        check_returned(b, es, spec['reduction'], bucket_prefix='C02/reused-solver')
+    return {'nontrivial': outcomes == ['ok', 'ok'], 'labels': labels}
+
+
 FAMILIES = [
     Family('contraction', contraction_case, run, quick=1600, thorough=60000),
+    Family('reused-solver', reuse_case, run_reuse, quick=800, thorough=20000),
     Family('diverging', diverging_case, run, quick=600, thorough=20000),
     Family('economies', economy_case, run_economy, quick=192, thorough=3000),
 ]
